@@ -189,6 +189,14 @@ func corrSchemes(prop, outDir string, seed uint64, tier string) *report {
 	}
 	must(csN.flush())
 	must(csC.flush())
+	if prop == "C01" {
+		// the concrete derivation the C01_*_concrete theorems speak about, extracted, on the argument lists of this run
+		n := 25
+		if tier == "thorough" {
+			n = 200
+		}
+		checkKdfEntries(rep, n)
+	}
 	rep.CaseSets = []string{prop + "_newhash", prop + "_check"}
 	rep.Distribution["cases_sent_to_coq_newhash"] = nCoq
 	switch prop {
